@@ -25,7 +25,7 @@ func zzVRule(name string, ver int, sal string, upd bool) string {
 
 func zzVText(ver int, upd bool, names string) string {
 	t := ""
-	sal := map[byte]string{'a': "9", 'b': "5", 'c': "1", 'd': "0"}
+	sal := map[byte]string{'a': "9", 'b': "5", 'c': "1", 'd': "0", 'n': "7", 'm': "3"}
 	for i := 0; i < len(names); i++ {
 		t += zzVRule(string(names[i]), ver, sal[names[i]], upd && names[i] == 'a')
 	}
@@ -46,6 +46,7 @@ func zzUpdates() []zzUpd {
 		{"incradd", func(gp *GenginePool) error { return zzExplored(func() error { return gp.UpdatePooledRulesIncremental(zzVText(2, false, "cd")) }) }, map[string]int64{"a": 1, "b": 1, "c": 2, "d": 2}},
 		{"remove", func(gp *GenginePool) error { return gp.RemoveRules([]string{"c"}) }, map[string]int64{"a": 1, "b": 1}},
 		{"clear", func(gp *GenginePool) error { gp.ClearPoolRules(); return nil }, map[string]int64{}},
+		{"incrmix", func(gp *GenginePool) error { return zzExplored(func() error { return gp.UpdatePooledRulesIncremental(zzVText(2, false, "nbmc")) }) }, map[string]int64{"a": 1, "n": 2, "b": 2, "m": 2, "c": 2}},
 	}
 }
 
@@ -289,6 +290,9 @@ func %s() {
 		{"remove_incradd", []int{4, 3}, "map[string]int64{\"a\": 1, \"b\": 1, \"c\": 2, \"d\": 2}"},
 		{"incr_remove", []int{2, 4}, "map[string]int64{\"a\": 1, \"b\": 2}"},
 		{"full_incradd_clear_incr", []int{1, 3, 5, 2}, "map[string]int64{\"b\": 2}"},
+		{"incrmix", []int{6}, "map[string]int64{\"a\": 1, \"n\": 2, \"b\": 2, \"m\": 2, \"c\": 2}"},
+		{"remove_incrmix", []int{4, 6}, "map[string]int64{\"a\": 1, \"n\": 2, \"b\": 2, \"m\": 2, \"c\": 2}"},
+		{"incradd_incrmix", []int{3, 6}, "map[string]int64{\"a\": 1, \"n\": 2, \"b\": 2, \"m\": 2, \"c\": 2, \"d\": 2}"},
 	}
 	for _, sq := range seqs {
 		name := "V_" + sq.id
